@@ -74,13 +74,21 @@ pub struct DriveOpts<'a> {
     pub max_calls: Option<u64>,
     /// set HAS_MORE_INPUT on every call that does not offer the last byte
     pub announce: bool,
+    /// flat mode: decode into buf[flat_start..] (the bytes before it must stay untouched)
+    pub flat_start: usize,
 }
 
 /// Drive `decompress_with_limit` over `data` with a schedule. Checks the per-call invariants
 /// common to C03/C05/C07/C08; `hook` sees the decoder after every call.
 pub fn drive(r: &mut DecompressorOxide, data: &[u8], o: &DriveOpts, mut hook: impl FnMut(&mut DecompressorOxide, &CallInfo) -> Result<(), Violation>) -> Result<DecRun, Violation> {
     let (mut buf, mut out_pos, flat, extra) = match o.mode {
-        BufMode::Flat { cap } => (vec![0xA5u8; cap], 0usize, true, TINFL_FLAG_USING_NON_WRAPPING_OUTPUT_BUF),
+        BufMode::Flat { cap } => {
+            let mut b = ring_fill(0, 1);
+            b.clear();
+            let mut s = 0x1234_5678u64 ^ cap as u64;
+            b.extend((0..cap + o.flat_start).map(|_| splitmix64(&mut s) as u8));
+            (b, o.flat_start, true, TINFL_FLAG_USING_NON_WRAPPING_OUTPUT_BUF)
+        }
         BufMode::Ring { bits, start, fill_seed } => {
             let b = ring_fill(bits, fill_seed);
             let st = start as usize % b.len();
@@ -211,7 +219,7 @@ pub fn plain_hook(_: &mut DecompressorOxide, _: &CallInfo) -> Result<(), Violati
 pub fn flat_oneshot(data: &[u8], flags: u32, cap: usize) -> Result<DecRun, Violation> {
     let mut r = DecompressorOxide::new();
     let s = DecSched::default();
-    drive(&mut r, data, &DriveOpts { flags, mode: BufMode::Flat { cap }, sched: &s, canary: false, max_calls: None, announce: true }, plain_hook)
+    drive(&mut r, data, &DriveOpts { flags, mode: BufMode::Flat { cap }, sched: &s, canary: false, max_calls: None, announce: true, flat_start: 0 }, plain_hook)
 }
 
 pub fn zflags(zlib: bool) -> u32 {
